@@ -76,8 +76,9 @@ class BodyError(Exception):
 def gen(rng: Any, prop: str, tier: str) -> dict[str, Any]:
     if rng.random() < 0.1:
         return gen_memory(rng, tier)
-    hazards = {"multi_call_statement": rng.random() < 0.15}
+    hazards = {"multi_call_statement": rng.random() < 0.15, "replace_in_txn_after_dml": rng.random() < 0.08}
     g = Gen(rng, Model(), vary_spelling=False)
+    dml_in_txn: set[str] = set()
     two = rng.random() < 0.3
     sids = ["s0", "s1"] if two else ["s0"]
     g.connect("s0", rng.choice(["DB1", "db1", "Db1"]), rng.choice(["S1", "s1"]))
@@ -114,12 +115,16 @@ def gen(rng: Any, prop: str, tier: str) -> dict[str, Any]:
             ref: list[Any] = [None, None, rng.choice(free)]
             if "DB2" in dbs and "S1" in dbs["DB2"] and not in_txn and rng.random() < 0.5:
                 ref = ["DB2", "S1", rng.choice(["T1", "T2"])]  # a table (and its Snowflake-side metadata) in a database that is not the session's current one
+            if in_txn and ref[2] in dml_in_txn and not hazards["replace_in_txn_after_dml"]:
+                continue  # known engine finding: DML on a table that the same transaction then replaces is resurrected by WAL replay
             st: dict[str, Any] = {"t": "create_table", "ref": ref, "cols": [["A", "INT"], ["B", vtype]], "or_replace": True}
             if hazards["multi_call_statement"] and rng.random() < 0.6:
                 st["comment"] = f"c{g.fresh()}"
             g.exec(sid, st)
         elif kind == "insert":
             fq = rng.choice(tables)
+            if in_txn:
+                dml_in_txn.add(fq[2])
             g.exec(sid, {"t": "insert", "ref": g.qualify(sid, fq, 0.0), "rows": [g.row_for(g.columns_of(fq) if not in_txn else dbs[fq[0]][fq[1]]["tables"][fq[2]]["cols"], 0.1) for _ in range(rng.choice([1, 1, 2, 3]))]})
         elif kind == "write_pandas" and tables:
             fq = rng.choice(tables)
@@ -128,6 +133,8 @@ def gen(rng: Any, prop: str, tier: str) -> dict[str, Any]:
             dbs[fq[0]][fq[1]]["tables"][fq[2]]["rows"].extend([list(r) for r in rows])
         elif kind == "update":
             fq = rng.choice(tables)
+            if in_txn:
+                dml_in_txn.add(fq[2])
             bcol = dbs[fq[0]][fq[1]]["tables"][fq[2]]["cols"][1]
             newv: Any = f"u{g.fresh()}" if bcol["type"].startswith("VARCHAR") else g.fresh()
             g.exec(sid, {"t": "update", "ref": g.qualify(sid, fq, 0.0), "set": [["B", newv]], "where": ["cmp", "A", rng.choice([">", "<", "<>"]), 1000 + rng.randint(0, 12)]})
@@ -138,6 +145,7 @@ def gen(rng: Any, prop: str, tier: str) -> dict[str, Any]:
             if in_txn:
                 g.exec(sid, {"t": rng.choice(["commit", "commit", "rollback"])})
                 txn_owner = None
+                dml_in_txn.clear()
             elif txn_owner is None:
                 g.exec(sid, {"t": "begin"})
                 txn_owner = sid
@@ -494,7 +502,36 @@ def op_kind(op: dict[str, Any]) -> str:
     return (op.get("st") or {}).get("t", "exec")
 
 
+def _replaced_after_dml(case: dict[str, Any], upto: int) -> bool:
+    """Does the history up to op index `upto` contain a transaction that changed rows of a table and then replaced it?"""
+    touched: set[str] | None = None
+    for op in case["ops"][: upto + 1]:
+        t = op_kind(op)
+        sql = str(op.get("sql", "")).upper()
+        if t == "begin":
+            touched = set()
+        elif t in ("commit", "rollback"):
+            touched = None
+        elif touched is not None:
+            if t in ("insert", "update", "delete"):
+                touched.add(sql.replace("INSERT INTO ", "").replace("DELETE FROM ", "").replace("UPDATE ", "").split()[0].split(".")[-1])
+            elif t == "create_table" and "OR REPLACE" in sql:
+                name = sql.split("TABLE", 1)[1].split("(")[0].strip().split(".")[-1]
+                if name in touched:
+                    return True
+    return False
+
+
 def judge(case: dict[str, Any], fault: dict[str, Any], recs_a: list[dict[str, Any]], snap_b: dict[str, Any], snaps: list[dict[str, Any]], empty: dict[str, Any]) -> dict[str, Any] | None:
+    v = _judge(case, fault, recs_a, snap_b, snaps, empty)
+    if v is not None and not v["signature"].startswith("restart-fails"):
+        started = [r["i"] for r in recs_a if r["ev"] == "op_start"]
+        if started and _replaced_after_dml(case, started[-1]):
+            v["signature"] = "engine-wal-replay/replaced-in-txn-after-dml/" + v["signature"]
+    return v
+
+
+def _judge(case: dict[str, Any], fault: dict[str, Any], recs_a: list[dict[str, Any]], snap_b: dict[str, Any], snaps: list[dict[str, Any]], empty: dict[str, Any]) -> dict[str, Any] | None:
     started = [r["i"] for r in recs_a if r["ev"] == "op_start"]
     done = [r["i"] for r in recs_a if r["ev"] == "op_done"]
     last_done = max(done) if done else -1
